@@ -105,10 +105,29 @@ def run(tier):
     def steps(rep, cov):
         n = _verus_codemap(rep, cov) or 0
         n += prop_asm.verus_unit_step('c10_tables.vspec')(rep, cov) or 0
+        # the same contract executed on the real dora-compiler (concrete witness when the proof fails or is undecided; sampled)
+        try:
+            rb = common.build_runner('c10tables', {'dora-compiler': 'dora-compiler', 'dora-bytecode': 'dora-bytecode'}, lock=True)
+            budget = 2000 if tier == 'quick' else 30000
+            rc, out, err, wall = common.run_cmd([rb, 'search', str(common.seed()), str(budget)], timeout=600)
+            info = json.loads(out.strip().split('\n')[-1])
+            cov['tables_runner'] = info
+            if info.get('found'):
+                if rep.violation('runner:tables', 'executable form of the GcPointTable / LocationTable contract on the real dora-compiler',
+                                 dict(failing_input=dict(kind='tables', seed=info['seed'], iter=info['iter'], what=info.get('what'))), True):
+                    n += 1
+        except Exception as e:
+            rep.undecide('tables runner unavailable: %s' % str(e)[:400])
         return n
     return kprop.run_kani_property(PROP, tier, ['c10'], assumptions=assumptions, samples=samples, not_decided=not_decided,
                                    row_filter=_row_filter, extra_steps=steps)
 
 
 def replay(rp):
+    fi = rp.get('failing_input') or {}
+    if fi.get('kind') == 'tables':
+        rb = common.build_runner('c10tables', {'dora-compiler': 'dora-compiler', 'dora-bytecode': 'dora-bytecode'}, lock=True)
+        rc, out, err, _ = common.run_cmd([rb, 'replay', str(fi['seed']), str(fi['iter'])])
+        print(out.strip())
+        return 1 if rc != 0 else 0
     return kprop.replay_row(rp)
